@@ -6,7 +6,7 @@ from vf.gen import Ctx
 from vf.xh import Ob
 
 KINDS = ["let-a", "let-ab", "let-b-from-a", "fn-param", "fn-free", "defn-call", "setv-then", "lfor", "closure-escape",
-         "let-then-read", "let-setv-closure", "let-in-except", "let-unpack"]
+         "let-then-read", "let-setv-closure", "let-in-except", "let-unpack", "let-dup", "lfor2", "lfor-setv", "lfor-self"]
 
 
 def leaf(c, kind):
@@ -56,6 +56,19 @@ def wrap(c, kind, inner, n):
                 ("#(", r, r + "i"))
     if kind == "let-in-except":
         return ("try", ("raise", ("E1",)), ("except", ("[", "b", "E1"), ("let", ("[", "a", x), inner)))
+    if kind == "let-dup":
+        # the same name bound twice in one binding vector: the second binding is a new variable, a closure made in between keeps the first
+        f = "d%d" % n
+        return ("let", ("[", "a", x, f, ("fn", ("[",), ("E", c.sites(), "a")), "a", ("+", "a", 10)),
+                ("setv", f + "u", (f,)), ("setv", f + "v", inner), ("#(", f + "u", f + "v", (f,)))
+    if kind == "lfor2":
+        # two clauses: the first iteration variable shadows an enclosing let binding of the same name in later clauses and in the body
+        return ("lfor", "a", ("[", x, c.leaf("x")), "b", ("[", "a", ("+", "a", 1)), inner)
+    if kind == "lfor-setv":
+        return ("lfor", "a", ("[", x, c.leaf("x")), (":", "setv"), "b", ("+", "a", 1), inner)
+    if kind == "lfor-self":
+        # the first iterable is evaluated in the enclosing scope: it reads the enclosing a, not the iteration variable
+        return ("lfor", "a", ("[", "a", ("+", "a", x)), inner)
     if kind == "let-unpack":
         return ("let", ("[", ("[", "a", ("unpack-iterable", "b")), ("[", x, c.leaf("x"))), inner)
     raise ValueError(kind)
@@ -73,17 +86,19 @@ def build(kinds, leafkind, place):
     return body
 
 
-REBINDS_A = ("let-a", "let-ab", "fn-param", "let-unpack", "closure-escape", "let-setv-closure", "let-then-read")
+REBINDS_A = ("let-a", "let-ab", "fn-param", "let-unpack", "closure-escape", "let-setv-closure", "let-then-read", "let-dup")
+LFORS = ("lfor", "lfor2", "lfor-setv", "lfor-self")
 
 
 def allowed(ks, lk):
     """Assigning (setv) to a comprehension's own iteration variable inside its body is not a documented case:
     below an lfor, `a` must be re-bound by a let/fn before it is assigned."""
     under_lfor = False
-    if "lfor" in ks and "defn-call" in ks[ks.index("lfor"):]:
+    first = [i for i, k in enumerate(ks) if k in LFORS]
+    if first and "defn-call" in ks[first[0]:]:
         return False  # whether a defn inside a comprehension body is visible outside is not documented (see C04 notes)
     for k in ks:
-        if k == "lfor":
+        if k in LFORS:
             under_lfor = True
         elif k in REBINDS_A:
             under_lfor = False
